@@ -142,7 +142,10 @@ class HashTable:
         return self.dtype(mod)
 
     def _get_hash(self, keys):
-        return keys % self._mod
+        mod = int(self._mod)  # a python int takes the type of the keys asked for (int64 and uint64 have no common integer type)
+        if isinstance(keys, (np.ndarray, np.generic)) and keys.dtype.kind in "iu" and mod > np.iinfo(keys.dtype).max:
+            keys = keys.astype(np.int64)  # a narrow query type that cannot hold the modulus
+        return keys % mod
 
     def _build_ragged_array(self, keys, hashes):
         unique, counts = np.unique(hashes, return_counts=True)
